@@ -496,13 +496,17 @@ func c12Builder(env *fw.Env, idx int, pairs bool) fw.Result {
 		}
 	}
 	for _, fc := range fcases {
-		br := runBuild(&w, dir, buildOpts{Faults: fc.faults})
+		br := runBuild(&w, dir, buildOpts{Faults: fc.faults, Limit: 4*n + 20})
 		res.Evals++
 		res.Obs["fault_runs"]++
 		if br.NewErr != nil {
 			return fw.Result{Verdict: fw.Inconclusive, Msg: br.NewErr.Error()}
 		}
 		be := br.be
+		if be.aborted {
+			// a failure that sends the build round in circles is never reported
+			return viol("failure-never-reported", "faults %v: the build then made more than %d callbacks although the fault-free build needs %d: it does not come to an end", fc.faults, 4*n+20, n)
+		}
 		if len(be.faulted) == 0 {
 			continue // position not reached in this run (an earlier fault ended the build)
 		}
